@@ -165,6 +165,18 @@ def exc_signature(exc, package_hint="scenic"):
     return f"{type(exc).__name__}@{where}"
 
 
+def scenic_dirty():
+    import sys
+
+    v = sys.modules.get("scenic.syntax.veneer")
+    if v is None:
+        return False
+    return bool(v.activity or v.evaluatingRequirement or v.evaluatingGuard or v.scenarioStack
+                or v.currentSimulation is not None or v.currentScenario is not None
+                or v.currentBehavior is not None or v.runningScenarios or v.mode2D
+                or v.lockedParameters or v.lockedModel is not None)
+
+
 def scenic_recover():
     """Bring Scenic's interpreter-global state back to pristine after an asynchronous
     interruption (time limit) and check that a trivial program compiles and samples.
@@ -222,6 +234,13 @@ def hyp_search(strategy, judge, n, seed, col: Collector, *, budget_s=None, shrin
     def run_one(case):
         if state.get("poisoned"):
             return None
+        if scenic_dirty():
+            # an earlier case left Scenic's interpreter-global state inconsistent (that is C14's
+            # subject); it must not leak into the verdict of this case
+            col.bump("state_resets")
+            if not scenic_recover():
+                state["poisoned"] = True
+                return None
         try:
             with time_limit(case_timeout):
                 return judge(case)
